@@ -79,6 +79,9 @@ func newHistory(suite ref.Suite, seed uint64) (*history, error) {
 	c := hx.Creds{User: "op", Password: []byte("secret"), Priv: 3, Suite: suite, Seed: seed}
 	w := hx.NewWorldFor(c, true)
 	h := &history{w: w, sc: &hx.Scripter{}}
+	if suite.Integ == ref.IntegNone {
+		ev.Label("session-with-integrity-none")
+	}
 	// a session-less command before the session exists
 	if _, err := w.T.SendCommand(context.Background(), &ipmi.GetSystemGUIDCmd{}); err != nil {
 		return nil, err
@@ -95,7 +98,7 @@ func newHistory(suite ref.Suite, seed uint64) (*history, error) {
 // second opens another session over the same connection.
 func (h *history) second() error {
 	h.w.BMC.Intercept = nil
-	c := hx.Creds{User: "op", Password: []byte("secret"), Priv: 4, Suite: hx.Suites9()[int(h.bs.ID)%9]}
+	c := hx.Creds{User: "op", Password: []byte("secret"), Priv: 4, Suite: hx.Suites12()[int(h.bs.ID)%12]}
 	s, err := h.w.T.NewV2Session(context.Background(), c.Opts())
 	h.sc.Install(h.w.BMC)
 	if err != nil {
@@ -156,7 +159,7 @@ func pickCmd(i int) ipmi.Command {
 
 func TestEnumerated(t *testing.T) {
 	d1, d2 := ev.Pick(4, 5), ev.Pick(2, 3)
-	suites := hx.Suites9()
+	suites := hx.Suites12()
 	n := 0
 	run := func(scripts [][]hx.Outcome) {
 		n++
@@ -202,7 +205,7 @@ func TestEnumerated(t *testing.T) {
 func TestStateMachine(t *testing.T) {
 	cat := hx.Catalogue()
 	ev.Check(t, "TestStateMachine", ev.PickN(400, 100000), func(t *rapid.T) {
-		h, err := newHistory(rapid.SampledFrom(hx.Suites9()).Draw(t, "suite"), rapid.Uint64().Draw(t, "seed"))
+		h, err := newHistory(rapid.SampledFrom(hx.Suites12()).Draw(t, "suite"), rapid.Uint64().Draw(t, "seed"))
 		if err != nil {
 			t.Fatalf("harness: %v", err)
 		}
@@ -295,7 +298,7 @@ func TestStateMachine(t *testing.T) {
 }
 
 func TestCoverage(t *testing.T) {
-	ev.RequireLabels(t, 1, "enumeration-complete", "history-with-retransmission", "two-sessions-interleaved", "stray-in-session-reply-during-sessionless-command", "bmc-numbers-sessionless-packets")
+	ev.RequireLabels(t, 1, "enumeration-complete", "session-with-integrity-none", "history-with-retransmission", "two-sessions-interleaved", "stray-in-session-reply-during-sessionless-command", "bmc-numbers-sessionless-packets")
 }
 
 func min(a, b int) int {
